@@ -257,6 +257,10 @@ pub fn run_c13(ctx: &Ctx) -> i32 {
     let ov2 = Cfg::Ov(vec![Cfg::Mem, Cfg::Mem]);
     spaces.push(mk(Cfg::Mem, Order::Asc, a22.clone(), empty_init(false)));
     spaces.push(mk(Cfg::Phys, Order::Asc, a4.clone(), empty_init(false)));
+    // prefix-sharing, dotted and multi-byte names (byte-index slicing)
+    spaces.push(mk(Cfg::Mem, Order::Asc, alphabet(u_names(), &[b"x"], 1, true), empty_init(false)));
+    spaces.push(mk(Cfg::Phys, Order::Asc, alphabet(u_names_small(), &[b"x"], 1, false), empty_init(false)));
+    spaces.push(mk(ov2.clone(), Order::Asc, alphabet(u_names_small(), &[b"x"], 1, false), empty_init(false)));
     spaces.push(mk(Cfg::alt(Cfg::Mem, "/Z"), Order::Asc, a4.clone(), empty_init(false)));
     let u2 = Universe::new("U2{a,a/a}", &["/a", "/a/a"]);
     spaces.push(mk(ov2.clone(), Order::Asc, alphabet(u2.clone(), &[b"x"], 1, true), layerings(&[0, 1], &u2.paths, true)));
@@ -269,7 +273,7 @@ pub fn run_c13(ctx: &Ctx) -> i32 {
         spaces.push(mk(Cfg::Ov(vec![Cfg::Mem, Cfg::Mem, Cfg::Mem]), Order::Asc, a3.clone(), any_layerings(3, &u2.paths)));
         spaces.push(mk(Cfg::alt(Cfg::Phys, "/Z"), Order::Asc, a22.clone(), empty_init(false)));
         spaces.push(mk(Cfg::alt(ov2.clone(), "/Z"), Order::Asc, a3.clone(), layerings(&[0, 1], &u3().paths, false)));
-        spaces.push(mk(Cfg::Mem, Order::Asc, alphabet(u_names(), &[b"x"], 1, true), empty_init(false)));
+        spaces.push(mk(Cfg::alt(Cfg::Mem, "/Z"), Order::Desc, alphabet(u_names(), &[b"x"], 1, true), empty_init(false)));
     }
     let lim = limits(ctx);
     let (mut stats, mut vio) = run_spaces(ctx, spaces, &lim);
